@@ -151,7 +151,7 @@ IniOptSets == SUBSET {"IncludeDefaults", "CommentDefaults", "IncludeComments"}
 
 TripInvariant ==
   (st.stage = "value") =>
-    LET a == [Fresh(st.di, <<>>) EXCEPT !.val[st.o] = st.content]
+    LET a == ParseArgsCall([Fresh(st.di, <<>>) EXCEPT !.val[st.o] = st.content], <<>>)      \* parser A: preset, then a parse
         lines == WriteIni(a, st.iniopts)
         text == JoinLines(lines)
         b0 == Fresh(st.di, <<>>)
@@ -164,7 +164,7 @@ TripInvariant ==
     IN (~od.hidden /\ ~od.noIni /\ choicesOK) =>
           /\ b1.ierr.t = "none"
           /\ b2.err.t \in {"none", "ErrRequired", "ErrCommandRequired"}
-          /\ same(b2.val[st.o], st.content)
+          /\ same(b2.val[st.o], a.val[st.o])
 
 ---------------------------------------------------------------------------
 Init == \E di \in DeclIds : st = [stage |-> "seed", di |-> di]
@@ -229,7 +229,7 @@ EmitScn ==
    /\ st.stage = "value" =>
         LET od == Decls[st.di].opts[st.o]
             io == SetToSeq(st.iniopts) IN
-        PrintT("SCN " \o ToJson([Session(st.di, <<>>, <<Call("write", E, FALSE, <<>>, io, 0), Call("fresh", E, FALSE, <<>>, <<>>, 0),
-                                                         Call("ini", E, FALSE, <<>>, <<>>, 1), Call("args", E, FALSE, <<>>, <<>>, 0)>>, <<"roundtrip", "mc">>)
+        PrintT("SCN " \o ToJson([Session(st.di, <<>>, <<Call("args", E, FALSE, <<>>, <<>>, 0), Call("write", E, FALSE, <<>>, io, 0), Call("fresh", E, FALSE, <<>>, <<>>, 0),
+                                                         Call("ini", E, FALSE, <<>>, <<>>, 2), Call("args", E, FALSE, <<>>, <<>>, 0)>>, <<"roundtrip", "mc">>)
                                    EXCEPT !.presets = <<[opt |-> st.o, vals |-> PresetTexts(od, st.content)]>>]))
 =============================================================================
